@@ -10,6 +10,7 @@ import (
 	"fmt"
 	"math"
 	"strings"
+	"sync"
 )
 
 const tryLabel = "try"
@@ -66,8 +67,9 @@ func Deferred[V any](fn func() *Generator[V]) *Generator[V] {
 }
 
 type deferredGen[V any] struct {
-	g  *Generator[V]
-	fn func() *Generator[V]
+	g    *Generator[V]
+	once sync.Once
+	fn   func() *Generator[V]
 }
 
 func (g *deferredGen[V]) String() string {
@@ -76,9 +78,9 @@ func (g *deferredGen[V]) String() string {
 }
 
 func (g *deferredGen[V]) value(t *T) V {
-	if g.g == nil {
+	g.once.Do(func() {
 		g.g = g.fn()
-	}
+	})
 	return g.g.value(t)
 }
 
